@@ -279,7 +279,13 @@ let mem line =
        | "sadd" -> string_of_n (safe_signaling_add w a b)
        | "hdr" -> string_of_n (header_size a)
        | "allocm" -> (match alloc_multiple_req w a b with None -> "none" | Some n -> string_of_n n)
-       | "grow" -> (match grow_capacity w a with None -> "none" | Some n -> string_of_n n)
+       | "grow" ->
+           (* new capacity as handed to _cbor_realloc_multiple(data, sizeof ptr, c) *)
+           (match grow_capacity w a with
+            | None -> "none"
+            | Some c -> (match alloc_multiple_req w (n_of_int 8) c with
+                         | None -> "none"
+                         | Some r -> string_of_n (N.div r (n_of_int 8))))
        | _ -> "BADCASE")
   | _ -> "BADCASE"
 
@@ -297,6 +303,116 @@ let toks line =
   let evs = tokens_of (bytes_of_hex line) in
   if evs = [] then "-" else String.concat "," (List.map (string_of_tok ~off:false) evs)
 
+(* ---------- heap-level histories ---------- *)
+let nat_of_string s = nat_of_int (int_of_string s)
+let width_of = function "8" -> I8 | "16" -> I16 | "32" -> I32 | "64" -> I64 | s -> failwith ("width " ^ s)
+let fwidth_of = function "16" -> F16 | "32" -> F32 | "64" -> F64 | s -> failwith ("fwidth " ^ s)
+let parse_op (ws : string list) : op =
+  match ws with
+  | ["bi"; neg; w; v] -> OBuildInt (neg = "1", width_of w, n_of_string v)
+  | ["bf"; w; b] -> OBuildFloat (fwidth_of w, n_of_string ("0x" ^ b))
+  | ["bc"; v] -> OBuildCtrl (n_of_string v)
+  | ["bs"; t; h] -> OBuildString (t = "1", bytes_of_hex h)
+  | ["nis"; t] -> ONewIndefString (t = "1")
+  | ["nda"; n] -> ONewDefArray (n_of_string n)
+  | ["nia"] -> ONewIndefArray
+  | ["ndm"; n] -> ONewDefMap (n_of_string n)
+  | ["nim"] -> ONewIndefMap
+  | ["nt"; v] -> ONewTag (n_of_string v)
+  | ["bt"; v; x] -> OBuildTag (n_of_string v, nat_of_string x)
+  | ["push"; a; x] -> OPush (nat_of_string a, nat_of_string x)
+  | ["get"; a; i] -> OGet (nat_of_string a, n_of_string i)
+  | ["set"; a; i; x] -> OSet (nat_of_string a, n_of_string i, nat_of_string x)
+  | ["repl"; a; i; x] -> OReplace (nat_of_string a, n_of_string i, nat_of_string x)
+  | ["madd"; m; k; v] -> OMapAdd (nat_of_string m, nat_of_string k, nat_of_string v)
+  | ["chunk"; c; x] -> OAddChunk (nat_of_string c, nat_of_string x)
+  | ["tset"; t; x] -> OTagSet (nat_of_string t, nat_of_string x)
+  | ["titem"; t] -> OTagItem (nat_of_string t)
+  | ["inc"; h] -> OIncref (nat_of_string h)
+  | ["dec"; h] -> ODecref (nat_of_string h)
+  | ["copy"; h] -> OCopy (nat_of_string h)
+  | ["load"; h] -> OLoad (bytes_of_hex h)
+  | ["ssize"; h] -> OSerSize (nat_of_string h)
+  | ["ser"; h; n] -> OSerialize (nat_of_string h, n_of_string n)
+  | ["salloc"; h] -> OSerAlloc (nat_of_string h)
+  | _ -> failwith ("op " ^ String.concat " " ws)
+
+let fkind_s = function
+  | FUseAfterFree _ -> "use-after-free" | FNull -> "null-deref" | FOutOfBounds -> "out-of-bounds"
+  | FBadFree _ -> "bad-free" | FAssert i -> "assert-" ^ string_of_n i | FType -> "type" | FFuel -> "fuel"
+
+let ido = function None -> "0" | Some a -> string_of_n a
+let event_s = function
+  | EvMalloc (sz, r) -> Printf.sprintf "M%s:%s" (string_of_n sz) (ido r)
+  | EvRealloc (o, sz, r) -> Printf.sprintf "R%s:%s:%s" (ido o) (string_of_n sz) (ido r)
+  | EvFree p -> "F" ^ ido p
+
+let out_s (o : out) (op : op) : string =
+  match o with
+  | OutHandle ok -> if ok then "ok" else "NULL"
+  | OutBool b -> if b then "1" else "0"
+  | OutUnit -> "-"
+  | OutNum n -> string_of_n n
+  | OutBytes (ret, bytes) ->
+      (match op with
+       | OSerialize (_, n) -> Printf.sprintf "%s:%s" (string_of_n ret) (image bytes (int_of_n n))
+       | _ -> Printf.sprintf "%s:%s" (string_of_n ret) (hex_of_bytes bytes))
+  | OutLoadErr (c, p) -> Printf.sprintf "err:%s:%s" (lerr_s c) (string_of_n p)
+  | OutLoadOk rd -> "ok:" ^ string_of_n rd
+  | OutSkip -> "skip"
+
+(* one history under one refusal schedule; returns (text, number of requests made) *)
+let run_history (l : n) (cap : n) (mode : string) (k : n) (line : string) : string * n =
+  let refuse idx size =
+    (not (N.leb size cap)) ||
+    (match mode with "only" -> idx = k | "from" -> N.leb k idx | _ -> false) in
+  let steps = List.filter (fun x -> String.trim x <> "") (String.split_on_char ';' line) in
+  let b = Buffer.create 256 in
+  let st = ref ([] : cstate) and w = ref world0 and faulted = ref false in
+  List.iter (fun stp ->
+    if not !faulted then begin
+      let parts = String.split_on_char '?' stp in
+      let opws = split_ws (List.hd parts) in
+      let probes = match parts with [_; p] -> List.map int_of_string (split_ws p) | _ -> [] in
+      let o = parse_op opws in
+      (match step refuse l !st o !w with
+       | Fault kd -> faulted := true; Buffer.add_string b ("FAULT:" ^ fkind_s kd ^ ";")
+       | Ret ((s', ot), w') ->
+           st := s'; w := w';
+           Buffer.add_string b (out_s ot o);
+           if probes <> [] then begin
+             Buffer.add_string b "[";
+             List.iteri (fun i h ->
+               if i > 0 then Buffer.add_string b " ";
+               (match List.nth_opt (handles s') h with
+                | Some (Some a) ->
+                    (match probe1 w' a with
+                     | Some (rc, None) -> Buffer.add_string b (Printf.sprintf "%d:%s" h (string_of_n rc))
+                     | Some (rc, Some (sz, al)) -> Buffer.add_string b (Printf.sprintf "%d:%s:%s:%s" h (string_of_n rc) (string_of_n sz) (string_of_n al))
+                     | None -> Buffer.add_string b (Printf.sprintf "%d:DEAD" h))
+                | _ -> Buffer.add_string b (Printf.sprintf "%d:NULL" h))) probes;
+             Buffer.add_string b "]"
+           end;
+           Buffer.add_string b ";")
+    end) steps;
+  Buffer.add_string b (Printf.sprintf " live=%s trace=%s" (string_of_n (live_count !w))
+                         (String.concat "," (List.rev_map event_s !w.trace)));
+  (Buffer.contents b, !w.nreq)
+
+let hist l cap mode k line = fst (run_history l cap mode k line)
+
+let fault_ l cap line =
+  let (base, nreq) = run_history l cap "none" N0 line in
+  let n = int_of_n nreq in
+  let b = Buffer.create 1024 in
+  Buffer.add_string b (Printf.sprintf "N=%d base{%s}" n base);
+  List.iter (fun mode ->
+    for k = 0 to n - 1 do
+      let (r, _) = run_history l cap mode (n_of_int k) line in
+      Buffer.add_string b (Printf.sprintf " %s%d{%s}" mode k r)
+    done) ["only"; "from"];
+  Buffer.contents b
+
 let () =
   let stream = Sys.argv.(1) in
   let arg i = n_of_string Sys.argv.(i) in
@@ -305,6 +421,8 @@ let () =
     | "load" -> load_ (arg 2) (arg 3)
     | "load_spec" -> load_spec_ (arg 2) (arg 3)
     | "dec1_spec" -> dec1_spec | "ser_spec" -> ser_spec
+    | "hist" -> hist (arg 2) (arg 3) Sys.argv.(4) (arg 5)
+    | "fault" -> fault_ (arg 2) (arg 3)
     | "ser" -> ser | "utf8" -> utf8 | "utf8_spec" -> utf8_spec | "dfa" -> dfa | "mem" -> mem | "frag" -> frag | "toks" -> toks
     | s -> failwith ("unknown stream " ^ s) in
   try
